@@ -386,7 +386,7 @@ func genHistory(c *core.Chooser, prop string, tid int, maxOps int) []hop {
 		o.kind = c.Pick(weights...)
 		switch o.kind {
 		case 13:
-			o.coding = c.Intn(12) // which codec entry point
+			o.coding = c.Intn(14) // which codec entry point
 			fam := []family{famASCII, famASCII, famLatin1, famUCS2, famGBK, famGSM7U}[c.Intn(6)]
 			o.text = genSMSText(c, fam, 1+c.Intn(90), nil2run)
 			if c.Prob(1, 4) {
@@ -433,6 +433,17 @@ func genHistory(c *core.Chooser, prop string, tid int, maxOps int) []hop {
 				opt.NoTail = true // String() of optional parameters iterates a Go map
 			}
 			o.pd, o.msg = pd, spec.Gen(c, pd, opt)
+			if o.kind == 1 && declaredLengthSlot[pd.Site()] && len(ops)%3 == 1 {
+				// a body shorter than the length declared for it: the encoder pads the slot - with dozens to hundreds of
+				// octets, more than any fixed-width field of the protocols needs
+				for _, f := range pd.Fields {
+					if f.Kind == spec.KOctets && f.Ref != "" {
+						if n := len(o.msg.F[f.Name].B) + 33 + (len(ops)*37+tid*11)%190; n <= 255 {
+							o.msg.V(f.Ref).U = uint64(n)
+						}
+					}
+				}
+			}
 			if o.kind == 0 {
 				o.frame, _ = spec.Build(o.msg)
 				if hl := pd.Proto.HeaderLen(); len(o.frame) > hl+1 && c.Prob(1, 10) {
@@ -818,7 +829,7 @@ func execOp(r *core.Run, t *taskState, o hop) (live any, label string, panicked 
 		})
 		return live, label, p
 	case 13:
-		names := []string{"Latin1.Encode", "Latin1.Decode", "UCS2.Encode", "UCS2.Decode", "GB18030.Encode", "GB18030.Decode", "GSM7Unpacked.Encode", "GSM7Unpacked.Decode", "GSM7Packed.Encode", "GSM7Packed.Decode", "gsm7encoding.Pack", "gsm7encoding.Unpack"}
+		names := []string{"Latin1.Encode", "Latin1.Decode", "UCS2.Encode", "UCS2.Decode", "GB18030.Encode", "GB18030.Decode", "GSM7Unpacked.Encode", "GSM7Unpacked.Decode", "GSM7Packed.Encode", "GSM7Packed.Decode", "gsm7encoding.Pack", "gsm7encoding.Unpack", "Ascii.Encode", "Ascii.Decode"}
 		k := o.coding % len(names)
 		label = "datacoding." + names[k]
 		p := r.Call(label, func() {
@@ -826,7 +837,7 @@ func execOp(r *core.Run, t *taskState, o hop) (live any, label string, panicked 
 			buf := []byte(o.text)
 			if k%2 == 1 || k >= 10 {
 				// decoders get the reference encoding of the text (septets for the packers)
-				fam := []family{famLatin1, famLatin1, famUCS2, famUCS2, famGBK, famGBK, famGSM7U, famGSM7U, famGSM7U, famGSM7U, famGSM7U, famGSM7U}[k]
+				fam := []family{famLatin1, famLatin1, famUCS2, famUCS2, famGBK, famGBK, famGSM7U, famGSM7U, famGSM7U, famGSM7U, famGSM7U, famGSM7U, famASCII, famASCII}[k]
 				u, ok := refEncode(fam, o.text)
 				if !ok {
 					u, _ = refEncode(famUCS2, o.text)
@@ -861,8 +872,12 @@ func execOp(r *core.Run, t *taskState, o hop) (live any, label string, panicked 
 				out, err = datacoding.GSM7Packed(buf).Decode()
 			case 10:
 				out = gsm7encoding.Pack(buf)
-			default:
+			case 11:
 				out = gsm7encoding.Unpack(buf)
+			case 12:
+				out, err = datacoding.Ascii(buf).Encode()
+			default:
+				out, err = datacoding.Ascii(buf).Decode()
 			}
 			if err != nil {
 				live = "codec error"
